@@ -328,6 +328,7 @@ theorem dq_applyCmd (s : St) (c : Cmd) (hp : plainCmd c = true) (hc : isCleanup 
     case removeComp e ty => split <;> exact DQ.of_same (by sameD)
     case ewrInsertLocal e wr v => split <;> exact DQ.of_same (by sameD)
     case ewrCleanupData sys e wr => split <;> (try split) <;> exact DQ.of_same (by sameD)
+    case ewrAdd e wr v sys => split <;> exact DQ.of_same (by sameD)
   · have nb : ∀ (g : Frame), (∀ cs, g ≠ .batch cs) → g.dataOK → FramesQuiet [g] := fun g h1 h2 => framesQuiet_one h1 h2
     cases c <;> simp only [isCleanup, isEvtCmd, plainCmd] at hc he hp <;> (try (exact absurd hc (by decide))) <;>
       (try (exact absurd he (by decide))) <;> (try (exact absurd hp (by decide))) <;> simp only [applyCmd]
@@ -366,6 +367,10 @@ theorem dq_applyCmd (s : St) (c : Cmd) (hp : plainCmd c = true) (hc : isCleanup 
     case removeComp e ty => exact ⟨[], by split <;> rfl, framesQuiet_nil⟩
     case ewrInsertLocal e wr v => exact ⟨[], by split <;> rfl, framesQuiet_nil⟩
     case ewrCleanupData sys e wr => exact ⟨[], by split <;> (try split) <;> rfl, framesQuiet_nil⟩
+    case ewrAdd e wr v sys =>
+      split
+      · exact ⟨_, rfl, framesQuiet_flush_batch (plainList_cons rfl (plainList_cons rfl plainList_nil))⟩
+      · exact ⟨[], rfl, framesQuiet_nil⟩
 
 end Cobweb
 
